@@ -29,6 +29,7 @@ func replay(r *ev.Run) {
 	}
 	x := newExplorer(r, tr.Config)
 	env := run5.New(tr.Config.Role, tr.Config.N, tr.Config.Mode)
+	env.AltDecided = tr.Config.AltDecided
 	if err := env.Prefix(); err != nil {
 		ev.Fatal("prefix: %v", err)
 	}
